@@ -170,7 +170,15 @@ impl Server {
     let _ = self.child.wait();
   }
   pub fn healthy(&self) -> bool {
-    matches!(request(self.addr, "GET", "/healthz", None, b"", Duration::from_secs(5)), Ok(Some(r)) if r.status == 200)
+    // patient on a loaded machine: a slow answer is not an unhealthy server
+    for secs in [5u64, 30, 120] {
+      match request(self.addr, "GET", "/healthz", None, b"", Duration::from_secs(secs)) {
+        Ok(Some(r)) => return r.status == 200,
+        Err(e) if matches!(e.kind(), std::io::ErrorKind::TimedOut | std::io::ErrorKind::WouldBlock) => continue,
+        _ => return false,
+      }
+    }
+    false
   }
 }
 
@@ -191,6 +199,9 @@ pub fn start_server(index_dir: &Path, extra: &[&str]) -> Result<Server, String> 
   if !exe.exists() {
     return Err(format!("{} not built", exe.display()));
   }
+  // The error text starts with "slow:" when no attempt's process exited on its own (a starved machine:
+  // callers treat that as inconclusive) and with "exited:" (+ the last stderr lines) otherwise.
+  let mut last_exit: Option<String> = None;
   for _attempt in 0..5 {
     let port = free_port();
     let addr: SocketAddr = format!("127.0.0.1:{port}").parse().unwrap();
@@ -199,12 +210,31 @@ pub fn start_server(index_dir: &Path, extra: &[&str]) -> Result<Server, String> 
     for e in extra {
       cmd.arg(e);
     }
-    cmd.env("RUST_LOG", "off").stdin(Stdio::null()).stdout(Stdio::null()).stderr(Stdio::null());
+    cmd.env("RUST_LOG", "off").stdin(Stdio::null()).stdout(Stdio::null()).stderr(Stdio::piped());
     let child = cmd.spawn().map_err(|e| format!("spawn: {e}"))?;
     let mut s = Server { child, addr, index_dir: index_dir.to_path_buf() };
+    // drain stderr in the background so that a chatty server never blocks on a full pipe
+    let err_buf = std::sync::Arc::new(std::sync::Mutex::new(Vec::<u8>::new()));
+    if let Some(mut e) = s.child.stderr.take() {
+      let buf = err_buf.clone();
+      std::thread::spawn(move || {
+        let mut chunk = [0u8; 4096];
+        while let Ok(n) = std::io::Read::read(&mut e, &mut chunk) {
+          if n == 0 {
+            break;
+          }
+          let mut b = buf.lock().unwrap();
+          if b.len() < 65536 {
+            b.extend_from_slice(&chunk[..n]);
+          }
+        }
+      });
+    }
     let t = Instant::now();
-    while t.elapsed() < Duration::from_secs(20) {
+    let mut exited = false;
+    while t.elapsed() < Duration::from_secs(30) {
       if !s.alive() {
+        exited = true;
         break;
       }
       if s.healthy() {
@@ -213,11 +243,23 @@ pub fn start_server(index_dir: &Path, extra: &[&str]) -> Result<Server, String> 
         if s.alive() && s.healthy() {
           return Ok(s);
         }
+        exited = !s.alive();
         break;
       }
       std::thread::sleep(Duration::from_millis(30));
     }
     s.stop();
+    if exited {
+      std::thread::sleep(Duration::from_millis(50));
+      let text = String::from_utf8_lossy(&err_buf.lock().unwrap()).to_string();
+      // a lost race for the port is not the server's fault: try the next port
+      if !(text.contains("Address already in use") || text.contains("AddrInUse")) {
+        last_exit = Some(text.chars().rev().take(400).collect::<String>().chars().rev().collect());
+      }
+    }
   }
-  Err("server did not become healthy".into())
+  match last_exit {
+    Some(e) => Err(format!("exited: server process exited before becoming healthy: {e}")),
+    None => Err("slow: server did not become healthy within 5 x 30 s".into()),
+  }
 }
